@@ -257,7 +257,12 @@ func (ir IntervalRule) Standard(t time.Time) time.Time {
 		todayHour := time.Date(t.Year(), t.Month(), t.Day(), t.Hour(), 0, 0, 0, t.Location())
 		hours := floorDiv(int64(todayHour.Sub(epochLocal)), int64(time.Hour))
 		bucketIdx := floorDiv(hours, int64(ir.Num))
-		return time.Date(1970, 1, 1, int(bucketIdx)*ir.Num, 0, 0, 0, t.Location())
+		// hours counts absolute hours, so the bucket start must be rebuilt by
+		// adding absolute hours too. time.Date would normalize the hour count on
+		// the wall clock, which drifts from absolute time whenever the current UTC
+		// offset differs from the one at the epoch anchor (DST, zone rule changes)
+		// and then yields a bucket that does not contain t.
+		return epochLocal.Add(time.Duration(bucketIdx*int64(ir.Num)) * time.Hour)
 	}
 	panic("invalid interval unit")
 }
